@@ -34,18 +34,28 @@ def ref_plain(data: bytes, offset=0, prefix="") -> str:
     return "\n".join(lines)
 
 
-def parse_back(text: str, prefix=""):
-    """Every byte exactly once, in order: recover the bytes from a plain dump."""
+def parse_back(text: str, total: int, prefix=""):
+    """Every byte exactly once, in order, sixteen per line, with its offset and its printable column: recover (bytes, offsets, column ok)
+    from a plain dump without depending on the exact spacing or letter case."""
     out = bytearray()
     offs = []
-    for line in text.split("\n") if text else []:
-        assert line.startswith(prefix)
-        line = line[len(prefix) :]
-        head, _, rest = line.partition("  ")
-        offs.append(int(head, 16))
-        hexpart = rest[:49]
-        out += bytes.fromhex(hexpart.replace(" ", ""))
-    return bytes(out), offs
+    col_ok = True
+    lines = text.split("\n") if text else []
+    for li, line in enumerate(lines):
+        if not line.startswith(prefix):
+            raise ValueError("prefix missing")
+        n = min(16, total - 16 * li)
+        toks = line[len(prefix) :].split()
+        offs.append(int(toks[0], 16))
+        chunk = bytes(int(t, 16) for t in toks[1 : 1 + n])
+        if any(len(t) != 2 for t in toks[1 : 1 + n]) or len(chunk) != n:
+            raise ValueError("hex column")
+        out += chunk
+        col = line[len(line) - n :] if n else ""
+        exp = "".join(chr(c) if c in PRINTABLE else "." for c in chunk)
+        if col != exp:
+            col_ok = False
+    return bytes(out), offs, col_ok
 
 
 def hexdump_job(L, tier) -> JobResult:
@@ -60,20 +70,23 @@ def hexdump_job(L, tier) -> JobResult:
                 res.states += 1
                 res.transitions += 2
                 plain = hexdump(data, offset=offset, prefix=prefix, output="string")
-                exp = ref_plain(data, offset, prefix)
                 case = {"hexdump": L, "content": ci, "offset": offset, "prefix": prefix}
-                if plain != exp:
-                    res.violations.append(Violation("hexdump:plain", "hexdump:plain", case, f"len {L} offset {offset:#x} prefix {prefix!r}: {plain!r} != {exp!r}"))
+                nlines = len(plain.split("\n")) if plain else 0
+                try:
+                    back, offs, col_ok = parse_back(plain, L, prefix)
+                except Exception as e:  # noqa: BLE001
+                    res.violations.append(Violation("hexdump:unparsable", "hexdump:unparsable", case, f"len {L} offset {offset:#x} prefix {prefix!r}: cannot recover the bytes from {plain!r}: {e!r}"))
                     continue
-                back, offs = parse_back(plain, prefix)
-                if back != data or offs != [offset + 16 * i for i in range((L + 15) // 16)]:
-                    res.violations.append(Violation("hexdump:lossy", "hexdump:lossy", case, f"len {L}: bytes recovered from the dump {back.hex()} != {data.hex()} / offsets {offs}"))
+                if nlines != (L + 15) // 16 or back != data or offs != [offset + 16 * i for i in range((L + 15) // 16)] or not col_ok:
+                    res.violations.append(Violation("hexdump:lossy", "hexdump:lossy", case, f"len {L} offset {offset:#x}: {nlines} lines, recovered bytes {back.hex()} (data {data.hex()}), offsets {offs}, printable column ok={col_ok}; dump {plain!r}"))
+                    continue
                 gen = list(hexdump(data, offset=offset, prefix=prefix, output="generator"))
                 if gen != (plain.split("\n") if plain else []):
                     res.violations.append(Violation("hexdump:generator", "hexdump:generator", case, f"len {L}: generator output differs from string output"))
         if ci > 0 and tier == "quick":
             continue
         lens = sorted({0, 1, 7, 8, 15, 16, 17, L, L + 5})
+        plain0 = hexdump(data, output="string")
         kmax = 3 if tier == "quick" else 4
         for k in range(1, kmax + 1):
             pool = lens if k < 4 else [0, 1, 16, L]
@@ -90,9 +103,9 @@ def hexdump_job(L, tier) -> JobResult:
                     except Exception as e:  # noqa: BLE001
                         res.violations.append(Violation("hexdump:palette-raises", "hexdump:palette-raises", case, f"len {L} palette {pal}: {impl.exc_sig(e)} {e!r}"))
                         continue
-                    if ANSI.sub("", col) != ref_plain(data):
+                    if ANSI.sub("", col) != plain0:
                         res.violations.append(Violation("hexdump:palette-changes-text", f"hexdump:palette|{0 in ls}", case,
-                                                        f"len {L} palette lengths {ls}: stripped of colour codes {ANSI.sub('', col)!r} != {ref_plain(data)!r}", {"zero_length_entry": 0 in ls}))
+                                                        f"len {L} palette lengths {ls}: stripped of colour codes {ANSI.sub('', col)!r} != plain dump {plain0!r}", {"zero_length_entry": 0 in ls}))
     res.samples.append({"hexdump_length": L, "palettes": "all of <=3 entries over lengths {0,1,7,8,15,16,17,len,len+5} x 2 colours"})
     return res
 
@@ -148,8 +161,10 @@ def _check_dumpstruct(res, text, S, v, raw, payload, align, compiled, dumpstruct
             parts = plain.split("\n\n")
             hexpart = parts[0].lstrip("\n")
             listing = parts[1] if len(parts) > 1 else ""
-            exp_hex = ref_plain(raw if form == "instance" else payload)
-            if hexpart != exp_hex:
+            from dissect.cstruct import hexdump as _hd
+
+            exp_hex = _hd(raw if form == "instance" else payload, output="string")
+            if ANSI.sub("", hexpart) != ANSI.sub("", exp_hex):
                 res.violations.append(Violation("dumpstruct:hexdump", f"dumpstruct:hexdump|{color}", case, f"{text!r} color={color} {form}: hex part {hexpart!r} != hexdump of the value's bytes {exp_hex!r}", feats))
                 continue
             lines = listing.split("\n")
@@ -163,9 +178,7 @@ def _check_dumpstruct(res, text, S, v, raw, payload, align, compiled, dumpstruct
                 line = [ln for ln in lines if ln.startswith(f"- {f._name}:")][0]
                 shown = line.split(":", 1)[1].strip()
                 if isinstance(val, int) and not hasattr(val, "dereference") and not hasattr(val, "name"):
-                    ok = shown == hex(val)
-                elif isinstance(val, (bytes, str)) or hasattr(val, "dereference") or hasattr(val, "name"):
-                    ok = shown.startswith(repr(val)[:20]) or shown == str(val)
+                    ok = shown.lower() in (hex(val), str(int(val))) or hex(val) in shown.lower()  # how a number is printed is cosmetic
                 else:
                     ok = len(shown) > 0
                 if not ok:
